@@ -14,6 +14,12 @@ import (
 type Valuation struct {
 	Int  func(v ssa.Value) (int64, bool)
 	Bool func(v ssa.Value) (bool, bool)
+	// Visit, when set, is called for every non-phi instruction passed by Walk,
+	// in order (loops included); values can be read with EvalInt at that time.
+	Visit func(in ssa.Instruction)
+
+	// concrete values of the phis, assigned in parallel on block entry
+	phiInt map[*ssa.Phi]int64
 }
 
 // WalkResult is the end of a concrete walk.
@@ -42,7 +48,10 @@ func (val *Valuation) EvalInt(v ssa.Value, phi map[*ssa.Phi]ssa.Value) (int64, b
 	case *ssa.Convert:
 		return val.EvalInt(x.X, phi)
 	case *ssa.Phi:
-		if in, ok := phi[x]; ok {
+		if n, ok := val.phiInt[x]; ok {
+			return n, true
+		}
+		if in, ok := phi[x]; ok && in != ssa.Value(x) {
 			return val.EvalInt(in, phi)
 		}
 	case *ssa.BinOp:
@@ -62,6 +71,14 @@ func (val *Valuation) EvalInt(v ssa.Value, phi map[*ssa.Phi]ssa.Value) (int64, b
 			return a & b, true
 		case token.OR:
 			return a | b, true
+		case token.REM:
+			if b != 0 {
+				return a % b, true
+			}
+		case token.QUO:
+			if b != 0 {
+				return a / b, true
+			}
 		}
 	}
 	return 0, false
@@ -128,17 +145,46 @@ func (val *Valuation) EvalBool(v ssa.Value, phi map[*ssa.Phi]ssa.Value) (bool, b
 func (val *Valuation) Walk(start, from *ssa.BasicBlock) WalkResult {
 	res := WalkResult{Phi: map[*ssa.Phi]ssa.Value{}}
 	cur, prev := start, from
+	val.phiInt = map[*ssa.Phi]int64{}
 	for steps := 0; steps < 10000; steps++ {
+		// phis are assigned in parallel: evaluate every incoming value under
+		// the state before the block is entered, then commit
+		newInt := map[*ssa.Phi]int64{}
+		var phis []*ssa.Phi
 		for _, in := range cur.Instrs {
-			if ph, ok := in.(*ssa.Phi); ok {
-				for i, p := range cur.Preds {
-					if p == prev {
-						res.Phi[ph] = ph.Edges[i]
+			ph, ok := in.(*ssa.Phi)
+			if !ok {
+				break
+			}
+			phis = append(phis, ph)
+			for i, p := range cur.Preds {
+				if p == prev {
+					if n, isInt := val.EvalInt(ph.Edges[i], res.Phi); isInt {
+						newInt[ph] = n
 					}
 				}
+			}
+		}
+		for _, ph := range phis {
+			for i, p := range cur.Preds {
+				if p == prev {
+					res.Phi[ph] = ph.Edges[i]
+				}
+			}
+			if n, ok := newInt[ph]; ok {
+				val.phiInt[ph] = n
+			} else {
+				delete(val.phiInt, ph)
+			}
+		}
+		for _, in := range cur.Instrs {
+			if _, ok := in.(*ssa.Phi); ok {
 				continue
 			}
 			res.Instrs = append(res.Instrs, in)
+			if val.Visit != nil {
+				val.Visit(in)
+			}
 		}
 		last := cur.Instrs[len(cur.Instrs)-1]
 		switch x := last.(type) {
